@@ -1,6 +1,7 @@
 """C13  Server clients deliver written bytes completely and in order.
 C14  The event loop honours timers, removals, readiness and interrupts."""
 import itertools
+import random
 import threading
 import common as C
 
@@ -358,6 +359,9 @@ class Monitor:
         self.auto = 1000
         self.intr = False
         self.err = None
+        self.track_closing = False   # closing-wave family: no peer data, no backlog => read/write failures are predictable
+        self.closed_peer = set()
+        self.pending_close = []
         self.suspended = set()   # clients between suspend() and resume()
         self.sus_calls = 0       # suspend() calls on live clients (coverage)
         self.sus_pending = 0     # … issued from a callback other than the client's own
@@ -381,6 +385,16 @@ class Monitor:
                 del self.alive[i]
                 self.timers.pop(i, None)
                 self.suspended.discard(i)
+                if op == "rmc" and i in self.pending_close:
+                    self.pending_close.remove(i)
+        elif op == "rd" and self.track_closing:
+            i = int(a[1])
+            if self.alive.get(i) == "c" and i in self.closed_peer and i not in self.pending_close:
+                self.pending_close.append(i)
+        elif op == "wr" and self.track_closing:
+            i = int(a[1])
+            if self.alive.get(i) == "c" and (a[3] == "err" or (i in self.closed_peer and a[3] != "wb")) and i not in self.pending_close:
+                self.pending_close.append(i)
         elif op == "sus":
             i = int(a[1])
             if self.alive.get(i) == "c":
@@ -424,6 +438,9 @@ class Monitor:
                 self.alive[i] = {"mkpair": "c", "mklisten": "l", "mkconn": "e"}[op]
         elif op == "adv":
             self.clock += int(t[1])
+        elif op == "pclose":
+            if self.alive.get(int(t[1])) == "c" and int(t[1]) < 1000:
+                self.closed_peer.add(int(t[1]))
 
     def run_log(self, entries, events):
         # virtual time only passes inside epoll_wait: by the time-out (which must end at the next due
@@ -460,6 +477,11 @@ class Monitor:
                 if self.alive.get(c) != "c":
                     self.fail(f"removed_never_called: client {c} called back after remove() returned ({e})")
                     return
+                if m.group(3) == "C" and self.track_closing:
+                    if c not in self.pending_close:
+                        self.fail(f"closing_once: client {c} got onClosed without a (new) failed read/write ({e})")
+                        return
+                    self.pending_close.remove(c)
                 if m.group(3) == "R" and c in self.suspended:
                     self.fail(f"suspended_no_read: client {c} got onRead between suspend() and resume() ({e})")
                     return
@@ -482,12 +504,17 @@ class Monitor:
                     return
                 self.callback(o, None, ts)
             else:  # ret
-                pass
+                if self.track_closing and self.pending_close:
+                    self.fail(f"failed_io_then_onClosed: clients {self.pending_close} failed a read/write and were not removed, "
+                              f"but run() returned without their onClosed")
 
 
 def c14_monitor(hist, impl_out, stats=None):
     """returns None or a description of the first property violation visible in the implementation's output"""
     m = Monitor()
+    # histories without peer data and without partial writes: every read/write failure is predictable from the op lines
+    m.track_closing = not any(l.startswith("psend") or l.startswith("dial") or l.startswith("mkconn") or
+                              re.search(r"wr:\d+:\d+:(?!err)", l) for l in hist)
     try:
         return _c14_monitor(m, hist, impl_out)
     finally:
@@ -779,6 +806,52 @@ def c14_pending_exhaustive():
     return hs
 
 
+def c14_closing_wave_histories(rng):
+    """containers inside Server under load: 9 or 12 simultaneously live socket-pair clients (more than the 8 buckets of
+    _closingClients, more than one PoolList block) whose peers closed; ALL fail a read (or an error write) within one loop
+    iteration, in several orders; some are removed at once with remove(client), some remove themselves inside onClosed,
+    some stay; then clients are re-created in the freed slots and a second wave fails (issued at top level, or from a timer
+    callback).  Expected (model + monitor): exactly one onClosed per failed-and-not-removed client, none for removed ones,
+    and run() keeps going until interrupted."""
+    hs = []
+    for n in (9, 12):
+        ids = list(range(1, n + 1))
+        orders = [list(ids), list(reversed(ids)), ids[1::2] + ids[0::2]]
+        for _ in range(2):
+            p = list(ids)
+            rng.shuffle(p)
+            orders.append(p)
+        for order in orders:
+            patterns = [set(order[n // 2:]), set(order[1::2]), set(order[0::2]), set(order[-1:]), set(order[1:2]),
+                        set(order[: n // 2]), set()]
+            patterns += [{order[k]} for k in range(2, n, 3)]
+            for pi, now_rm in enumerate(patterns):
+                rest = [i for i in order if i not in now_rm]
+                self_rm = set(rest[0::2]) if pi % 2 == 0 else set(rest)
+                fail = lambda i, k: f"rd:{i}" if (k + pi) % 3 else f"wr:{i}:5:err"
+                h = [f"mkpair {i}" for i in ids] + [f"pclose {i}" for i in ids]
+                h += ["act mk:50:1",
+                      "script 50 0 " + ",".join([fail(i, k) for k, i in enumerate(order)] + [f"rmc:{i}" for i in order if i in now_rm])]
+                h += [f"script {i} 0 rmc:{i}" for i in order if i in self_rm]
+                h += ["run all - - -"]
+                # second wave: new clients take the freed pool slots / descriptors; the clients that stayed fail again
+                freed = len(now_rm) + len(self_rm)
+                new = list(range(101, 101 + freed))
+                h += [f"mkpair {i}" for i in new] + [f"pclose {i}" for i in new]
+                stay = [i for i in rest if i not in self_rm]
+                wave2 = new + stay
+                if pi % 2:
+                    wave2.reverse()
+                if pi % 3 == 0:
+                    h += ["script 50 3 " + ",".join([f"rd:{i}" for i in wave2] + [f"rmc:{i}" for i in wave2[1::2]])]
+                else:
+                    h += [f"act rd:{i}" for i in wave2] + [f"act rmc:{i}" for i in wave2[1::2]]
+                h += [f"script {i} {1 if i in stay else 0} rmc:{i}" for i in wave2[0::4]]
+                h += ["run all - - -", "run all -"]
+                hs.append(h)
+    return hs
+
+
 class C14Stats:
     def __init__(self):
         self.lock = threading.Lock()
@@ -834,14 +907,16 @@ def check_c14(ctx):
         ncorpus = len(hs)
         ex = c14_equal_due_exhaustive()
         ex2 = c14_pending_exhaustive()
+        ex3 = c14_closing_wave_histories(random.Random(12345))
         nt, nm = (6000, 9000) if quick else (60000, 90000)
         if not proof_ok:
             nt, nm = nt * 3, nm * 3
         tim = [c14_timer_history(rng, equal_due=(k % 2 == 0)) for k in range(nt)]
         mix = [c14_mixed_history(rng, with_net=(k % 3 != 0)) for k in range(nm)]
-        hs = hs + ex + ex2 + tim + mix
+        hs = hs + ex + ex2 + ex3 + tim + mix
         ctx.cov["rule"] = (f"corpus ({ncorpus}) + exhaustive equal-due scope: 1..8 timers created in one virtual millisecond with equal interval, "
                            f"remove(timer r) for every r before run / between runs / from the callback of every timer q ({len(ex)} histories) + "
+                           f"closing-wave family: 9/12 live clients all failing a read/write in one loop iteration in 5 orders x 10-11 immediate-remove patterns, remove inside onClosed, re-creation in freed slots and a second wave ({len(ex3)} histories; monitor: exactly one onClosed per failed-and-not-removed client, none for removed ones) + "
                            f"exhaustive pending-event scope: 2 clients + listener + establisher reported by one epoll_wait in all 24 orders, the first callback removes any of the four ({len(ex2)} histories) + "
                            f"{len(tim)} random timer programs (1..8 timers, intervals 1..3, create/remove/interrupt inside callbacks, interrupt before/during run) + "
                            f"{len(mix)} random mixed programs (1..4 socket-pair clients, 0..2 loop-back listeners with dialling peers, 0..2 establishers, 0..3 timers; "
